@@ -19,7 +19,7 @@ def strip_trace(block: str) -> str:
     """remove def?!/de_*! tracing macro calls"""
     out = []
     i = 0
-    pat = re.compile(r'\b(def[a-zñ]?|de_err|de_wrn|defn|defo|defx|defñ)!\s*\(')
+    pat = re.compile(r'\b(def1?[a-zñ]?|de[a-zñ]|de_err|de_wrn)!\s*\(')
     while True:
         m = pat.search(block, i)
         if not m:
